@@ -24,6 +24,7 @@ from __future__ import annotations
 
 import logging
 import os
+import sys
 from pathlib import PurePosixPath, PurePath
 
 from explorerscript.error import SsbCompilerError
@@ -227,6 +228,8 @@ class ExplorerScriptSsbCompiler:
             return self
 
         # Start Compiling
+        # An exception that the caller is handling right now is not part of what goes wrong in here.
+        exception_of_caller = sys.exc_info()[1]
         try:
             try:
                 logger.debug("<%d> Compiling routines...", id(self))
@@ -235,7 +238,7 @@ class ExplorerScriptSsbCompiler:
             except Exception as ex:
                 # due to the stack nature of the decompile visitor, we get many stack exceptions after raising
                 # the first. Raise the last exception in the context chain.
-                while ex.__context__ is not None:
+                while ex.__context__ is not None and ex.__context__ is not exception_of_caller:
                     ex = ex.__context__  # type: ignore
                 raise ex
         except AssertionError as e:
